@@ -469,6 +469,10 @@ def shard_generated(acc, shard, nshards, n_rank, n_std, n_hist, n_val, n_mesh, f
     engine.hyp_run(acc, "mesh_rank", check_mesh_rank, mesh_rank_cases(), n_mesh, shard)
 
 
+# coverage-guided variants of the structured generators (thorough tier, pv/fuzz/target.py hyp:<name>)
+FUZZ = {"standardise": ("standardise", seq_cases), "validated": ("validated", validated_cases)}
+
+
 def run(acc, tier):
     if tier == "quick":
         engine.pmap(acc, shard_levels, extra=(7,))
@@ -476,5 +480,6 @@ def run(acc, tier):
     else:
         engine.pmap(acc, shard_levels, extra=(8,))
         engine.pmap(acc, shard_generated, extra=(3000, 4000, 300, 2000, 2000, 1500))
+        engine.fuzz(acc, "hyp:standardise", CHECKS, 5000, max_len=2048)
     # per-perm notations are checked inside "level": report their number
     acc.note("perms_with_all_notations_checked", sum(math.factorial(k) for k in range((7 if tier == "quick" else 8) + 1)))
